@@ -6,7 +6,7 @@ open Lean Pywbem.Proto Pywbem.Model.Uri
   {"op":"toc",  "fmt":F, "cpath":CP, "tab":TAB}  -> {"ok":[code points]}
   {"op":"from", "text":[code points], "tab":TAB} -> {"ok":P} | {"exc":name}
   {"op":"fromc","text":[code points], "tab":TAB} -> {"ok":CP} | {"exc":name}
-  {"op":"lit",  "text":[code points]}            -> {"int":"decimal"|null,"real":bool,"dt":bool}
+  {"op":"lit",  "text":[code points]}            -> {"int":"decimal"|null,"real":bool,"dt":bool,"frepr":bool}
   P   = {"host":cps|null,"ns":cps|null,"cls":cps,"keys":[[cps, V],…]}
   V   = {"t":"str","v":cps} | {"t":"bool","v":bool} | {"t":"int","v":"decimal"} | {"t":"real","v":cps}
       | {"t":"dt","v":cps} | {"t":"ref","v":P}
@@ -120,7 +120,8 @@ def handle (j : Json) : Json :=
     | none => Json.mkObj [("bad", "text")]
   | some "lit" =>
     match getChars j "text" with
-    | some t => Json.mkObj [("int", optToJson intToJson (intLit t)), ("real", realLit t), ("dt", dtAccepts t)]
+    | some t => Json.mkObj [("int", optToJson intToJson (intLit t)), ("real", realLit t), ("dt", dtAccepts t),
+                           ("frepr", isFloatRepr t)]
     | none => Json.mkObj [("bad", "text")]
   | _ => Json.mkObj [("bad", "op")]
 
